@@ -334,6 +334,9 @@ def handle (toks : List String) : String :=
         -- the same for that schedule, for everything in one chunk, and — when no chunk boundary of the
         -- line falls inside a row body (rows are atomic in the model anyway) — for the line's schedule
         let reference := avRun cfg "c" frames
+        -- (after an error the rows of the failing batch are lost, so schedules are only comparable
+        -- when the reference run has no error)
+        if reference.endsWith "r=ERR" then reference else
         check reference [("all-in-one", avRun cfg "f" [xs]), ("all-in-one-c", avRun cfg "c" [xs]),
           ("line-schedule", avRun cfg policy cs), ("frames-f", avRun cfg "f" frames), ("frames-k2", avRun cfg "k2" frames)]
       | none => "bad-op"
